@@ -1,8 +1,10 @@
 package gosym
 
 import (
+	"encoding/json"
 	"fmt"
 	"go/types"
+	"sort"
 	"strings"
 
 	"golang.org/x/tools/go/ssa"
@@ -432,6 +434,44 @@ func registerFSNatives(in *Interp) {
 	n["os/user.LookupId"] = func(in *Interp, fn *ssa.Function, args []Value) Value { return lookup(in, fn, args[0].(StrV)) }
 	n["os/user.Current"] = func(in *Interp, fn *ssa.Function, args []Value) Value { return lookup(in, fn, in.strConst("0")) }
 
+	// encoding/json.Unmarshal of a CONCRETE document into *map[string]interface{}
+	// (what the token code does with JWT headers and payloads): decoded by the real
+	// encoding/json inside the engine and rebuilt as engine values. Symbolic
+	// documents are not modelled.
+	n["encoding/json.Unmarshal"] = func(in *Interp, fn *ssa.Function, args []Value) Value {
+		data := args[0].(SliceV)
+		if !data.Len.IsConst() || !data.Off.IsConst() {
+			panic("json.Unmarshal of a symbolic-length document is not modelled")
+		}
+		raw := make([]byte, data.Len.V)
+		m := in.sliceMem(data)
+		for i := range raw {
+			b := in.memRead(m, in.tb.Add(data.Off, in.tb.Int(int64(i))))
+			if !b.IsConst() {
+				panic("json.Unmarshal of a symbolic document is not modelled")
+			}
+			raw[i] = byte(b.V)
+		}
+		dst, ok := args[1].(IfaceV)
+		if !ok || dst.T == nil {
+			return in.newError("json: Unmarshal(nil)")
+		}
+		pt, okp := dst.T.(*types.Pointer)
+		if !okp {
+			panic("json.Unmarshal: destination is not a pointer")
+		}
+		mt, okm := pt.Elem().Underlying().(*types.Map)
+		if !okm {
+			panic("json.Unmarshal: only *map[string]interface{} destinations are modelled")
+		}
+		var doc map[string]interface{}
+		if err := json.Unmarshal(raw, &doc); err != nil {
+			return in.newError("json: " + err.Error())
+		}
+		in.store(dst.V.(Ptr), in.jsonValue(doc, pt.Elem(), mt).(IfaceV).V)
+		return IfaceV{}
+	}
+
 	// vFSCreated(kind): number of objects the code created ("mkdir", "symlink",
 	// "create") since the model was set up, counting harness-made ones too.
 	in.intrinsicsExtra["vFSEvents"] = func(in *Interp, args []Value) Value {
@@ -444,4 +484,41 @@ func registerFSNatives(in *Interp) {
 		}
 		return in.tb.Int(int64(c))
 	}
+}
+
+// jsonValue rebuilds a decoded JSON value as the interface value Go's decoder
+// would have produced (string, float64, bool, nil, map[string]interface{},
+// []interface{}).
+func (in *Interp) jsonValue(v interface{}, mapT types.Type, mt *types.Map) Value {
+	switch x := v.(type) {
+	case nil:
+		return IfaceV{}
+	case string:
+		return IfaceV{T: types.Typ[types.String], V: in.strConst(x)}
+	case float64:
+		return IfaceV{T: types.Typ[types.Float64], V: in.tb.FPConst(f64bits(x))}
+	case bool:
+		return IfaceV{T: types.Typ[types.Bool], V: in.tb.Bool(x)}
+	case map[string]interface{}:
+		m := MapV{Obj: in.newObj(&MapData{}, mapT, "map")}
+		keys := make([]string, 0, len(x))
+		for k := range x {
+			keys = append(keys, k)
+		}
+		sort.Strings(keys)
+		for _, k := range keys {
+			in.mapUpdate(m, in.strConst(k), in.jsonValue(x[k], mapT, mt))
+		}
+		return IfaceV{T: mapT, V: m}
+	case []interface{}:
+		elems := make([]Value, len(x))
+		for i, e := range x {
+			elems[i] = in.jsonValue(e, mapT, mt)
+		}
+		st := types.NewSlice(mt.Elem())
+		o := in.newObj(&ArrayV{E: elems}, nil, "jsonarray")
+		n := in.tb.Int(int64(len(elems)))
+		return IfaceV{T: st, V: SliceV{Base: Ptr{Obj: o}, Off: in.tb.Int(0), Len: n, Cap: n, Max: len(elems)}}
+	}
+	panic(fmt.Sprintf("json value %T", v))
 }
